@@ -128,8 +128,13 @@ class ObjectiveFailure(BaseException):
 class LoggedProblem(Problem):
     """A Problem whose every Calculate call is logged: (event number, copy of the point, value)."""
 
-    def __init__(self, n, lower, upper, obj, clock=None):
+    def __init__(self, n, lower, upper, obj, clock=None, style=None):
         super().__init__()
+        # style: how a user-written problem may legitimately behave.  holder "same": fill the supplied value
+        # holder and return it (what every shipped problem does); "fresh": leave the supplied holder alone and
+        # return a new FunctionValue (the signature only promises "-> FunctionValue").  valtype: Python float or
+        # numpy.float64 values.
+        self.style = dict(style or {})
         self.numberOfFloatVariables = n
         self.dimension = n
         self.numberOfDisreteVariables = 0
@@ -167,6 +172,12 @@ class LoggedProblem(Problem):
         y = tuple(float(v) for v in point.floatVariables)
         val = self.value_at(y)
         self.log.append((self.clock[0], y, val))
+        if self.style.get("valtype") == "np":
+            val = np.float64(val)
+        if self.style.get("holder") == "fresh":
+            out = FunctionValue(functionValue.type, functionValue.functionID)
+            out.value = val
+            return out
         functionValue.value = val
         return functionValue
 
